@@ -110,7 +110,9 @@ def run(chk):
     r3 = chk.rule("R02.3", "data objects are read-only to models: private _df touched only by its own class; accessors hand out copies", 6)
     r4 = chk.rule("R02.4", "data classes never write into the caller's frames / series (values or shared index metadata)", 20)
     r5 = chk.rule("R02.5", "frames returned by predict are fresh objects", 3)
+    r7 = chk.rule("R02.7", "fit() and predict() never write into the data object they are given: no in-place store reaches its frames (a `df` accessor that hands out a copy is the only safe way in)", 5)
     r6 = chk.rule("R02.6", "no hidden state shared between objects: model and data classes never write, through an instance, into a mutable object that lives on the class", 1)
+    _models_do_not_write_data_objects(chk, r7)
     from rules import classstate
     _cls = [c for c in chk.res.all_classes() if c.module.name.startswith("opendsm.eemeter.models") or c.module.name.startswith("opendsm.eemeter.common")]
     classstate.report(chk, r6, _cls, what="using one object (constructing, fitting, predicting) changes every other object of the class")
@@ -248,6 +250,75 @@ def run(chk):
                 bad = [t for t in o if isinstance(t, tuple) and t[0] in ("PARAM", "VIEW", "SELF", "SELFVIEW")]
                 r5.require(not bad, key, f.where(rt), f"{f.qualname} may return an object that shares storage with its input / the model ({sorted(map(str, bad))})",
                            sample={"function": f.qualname, "origin": sorted(map(str, o))})
+
+
+def _models_do_not_write_data_objects(chk, r7):
+    """R02.7.  Origin analysis of every in-place store in the fit / predict methods of the five model families.  `<data>.df` (or
+    `getattr(<data>, self._data_df_name)`) is a fresh object only where the family's data classes expose `df` as a property that returns
+    a copy (decided from the data class, R02.3); where `df` is a plain attribute the expression denotes the caller's own frame."""
+    from rules.common import BILLING_MODEL, CALTRACK_WRAPPER, DAILY_MODEL, HOURLY_MODEL, WEIGHTED_MODEL
+
+    def copying_df(data_mod: str) -> bool:
+        m = chk.repo.modules.get(data_mod)
+        if m is None:
+            return False
+        ok_any = False
+        for c in m.classes.values():
+            for k in chk.res.mro(c):
+                dfp = k.methods.get("df")
+                if dfp is not None:
+                    rets = [n for n in walk_no_nested(dfp.node) if isinstance(n, ast.Return) and n.value is not None]
+                    vals = []
+                    for r in rets:
+                        stack = [r.value]
+                        while stack:
+                            e = stack.pop()
+                            if isinstance(e, ast.IfExp):
+                                stack += [e.body, e.orelse]
+                            elif unparse(e) != "None":
+                                vals.append(e)
+                    if any("property" in d for d in dfp.decorators) and vals and all(isinstance(v, ast.Call) and isinstance(v.func, ast.Attribute) and v.func.attr == "copy" for v in vals):
+                        ok_any = True
+                        break
+        return ok_any
+    fams = [(DAILY_MODEL, DAILY_DATA), (BILLING_MODEL, "opendsm.eemeter.models.billing.data"), (WEIGHTED_MODEL, "opendsm.eemeter.models.billing.data"),
+            (HOURLY_MODEL, HOURLY_DATA), (CALTRACK_WRAPPER, "opendsm.eemeter.models.hourly_caltrack.data")]
+    for mc, data_mod in fams:
+        cls = chk.repo.cls(*mc)
+        safe = copying_df(data_mod) or (data_mod.endswith("billing.data") and copying_df(DAILY_DATA))
+        for mname in ("fit", "predict"):
+            f = chk.res.find_method(cls, mname)
+            if f is None:
+                continue
+            key0 = f"{cls.key}.{mname}"
+            if key0 in r7.instances:
+                continue
+            params = [p for p in f.params if p not in ("self", "cls")]
+            if not params:
+                continue
+            data = params[0]
+            rd = ReachingDefs(f.node)
+
+            class _O(Origins):
+                def _of(self_, e, at):
+                    if safe and isinstance(e, ast.Attribute) and e.attr in ("df", "billing_df") and isinstance(e.value, ast.Name) and e.value.id == data:
+                        return frozenset({FRESH})
+                    if safe and isinstance(e, ast.Call) and unparse(e.func) == "getattr" and e.args and isinstance(e.args[0], ast.Name) and e.args[0].id == data:
+                        return frozenset({FRESH})
+                    return Origins._of(self_, e, at)
+            og = _O(f.node, rd, fresh_calls={"self._predict", "self._fit", "self._adaptive_fit", "self.model.predict", "self._model.predict"})
+            n_st = 0
+            for st, recv, kind in inplace_stores(f.node):
+                if isinstance(recv, ast.Name) and recv.id == "self" or (isinstance(recv, ast.Attribute) and unparse(recv).startswith("self.")):
+                    continue
+                n_st += 1
+                o = og.of(recv, st)
+                bad = [t for t in o if isinstance(t, tuple) and t[0] in ("PARAM", "VIEW") and t[1] == data]
+                r7.require(not bad, f"{f.key}|store-into-data-object:{unparse(recv)[:30]}|{kind}", f.where(st),
+                           f"{f.qualname}: `{unparse(st)[:90]}` writes in place into an object that is (part of) the data object `{data}` the caller handed in "
+                           + ("" if safe else f"(`{data}.df` is a plain attribute of this family's data classes, not a copy)") + ": using a model must not change the data",
+                           sample={"function": f.qualname, "store": unparse(st)[:80]})
+            r7.inst(key0, {"function": f.qualname, "in_place_stores_judged": n_st, "df_is_a_copy": safe})
 
 
 def _copy_before_mutate(chk, r4):
